@@ -96,7 +96,7 @@ void density_sketch<T, K, A>::update(FwdVector&& point) {
 template<typename T, typename K, typename A>
 template<typename FwdSketch>
 void density_sketch<T, K, A>::merge(FwdSketch&& other) {
-  if (other.is_empty()) return;
+  if (other.n_ == 0) return;
   if (other.dim_ != dim_) throw std::invalid_argument("dimension mismatch");
   while (levels_.size() < other.levels_.size()) levels_.push_back(Level(levels_.get_allocator()));
   for (unsigned height = 0; height < other.levels_.size(); ++height) {
